@@ -266,6 +266,54 @@ func WriteHeader(out *Bits, h *Header, recomputeCRC bool) {
 	out.Put(uint64(crc), 24)
 }
 
+// WriteLegacyHeader emits a header of format version v (0..5) as the reader still accepts them (written from the format notes in
+// the reader's comments: 1 checksum bit instead of 2; versions 3-4: 6-bit block count + 4-bit check; version 5: size field + 16-bit
+// check; versions 0-2: 6-bit block count + 4 reserved bits, no check)
+func WriteLegacyHeader(out *Bits, v int, h *Header, nbBlocks int) {
+	const HASH = uint32(0x1E35A7BD)
+	out.Put(0x4B414E5A, 32)
+	out.Put(uint64(v), 4)
+	if h.CkSize != 0 {
+		out.Put(1, 1)
+	} else {
+		out.Put(0, 1)
+	}
+	out.Put(uint64(h.Entropy), 5)
+	out.Put(h.Transform, 48)
+	out.Put(uint64(h.BlockSize>>4), 28)
+	switch {
+	case v >= 5:
+		out.Put(uint64(h.SzMask), 2)
+		if h.SzMask > 0 {
+			out.Put(uint64(h.Size), 16*h.SzMask)
+		}
+		c := HASH * uint32(v)
+		c ^= HASH * ^h.Entropy
+		c ^= HASH * uint32((^h.Transform)>>32)
+		c ^= HASH * uint32(^h.Transform)
+		c ^= HASH * uint32(^uint32(h.BlockSize))
+		if h.SzMask > 0 {
+			c ^= HASH * uint32(uint64(^h.Size)>>32)
+			c ^= HASH * uint32(^h.Size)
+		}
+		c = (c >> 23) ^ (c >> 3)
+		out.Put(uint64(c&0xFFFF), 16)
+	case v >= 3:
+		out.Put(uint64(nbBlocks&63), 6)
+		c := HASH * uint32(v)
+		c ^= HASH * h.Entropy
+		c ^= HASH * uint32(h.Transform>>32)
+		c ^= HASH * uint32(h.Transform)
+		c ^= HASH * uint32(h.BlockSize)
+		c ^= HASH * uint32(nbBlocks&63)
+		c = (c >> 23) ^ (c >> 3)
+		out.Put(uint64(c&0x0F), 4)
+	default:
+		out.Put(uint64(nbBlocks&63), 6)
+		out.Put(0, 4)
+	}
+}
+
 // WriteBlock emits the length prefix and payload bits
 func WriteBlock(out *Bits, payload []byte, payloadBits int) {
 	lw := 3
